@@ -701,8 +701,8 @@ Section InferProofs.
     destruct (bytes_eqb (base t) T_Enum8 || bytes_eqb (base t) T_Enum16) eqn:En.
     { unfold enum_infer. rewrite base_r_ok. cbn [rbind rok].
       destruct (negb (has_prefix (s2b "Enum") (base t))); [discriminate|].
-      rewrite elem_r_ok. cbn [rbind rok].
-      destruct (enum_parse _) as [ds|]; [|discriminate]. rewrite En. intros [= <- <-].
+      rewrite En. cbn [negb]. rewrite elem_r_ok. cbn [rbind rok].
+      destruct (enum_parse _) as [ds|]; [|discriminate]. intros [= <- <-].
       cbn [col_type]. apply conflicts_r_refl. }
     destruct (bytes_eqb (base t) T_DateTime64) eqn:B6; [|discriminate].
     apply bytes_eqb_eq in B6. unfold datetime64_infer. rewrite elem_r_ok. cbn [rbind rok].
@@ -757,8 +757,8 @@ Section InferProofs.
     destruct (bytes_eqb (base t) T_Decimal256); [reflexivity|].
     destruct (bytes_eqb (base t) T_Enum8 || bytes_eqb (base t) T_Enum16).
     { unfold enum_infer. rewrite base_r_ok. cbn [rbind rok].
-      destruct (negb _); [reflexivity|]. rewrite elem_r_ok. cbn [rbind rok].
-      destruct (enum_parse _); [|reflexivity]. destruct (_ || _); reflexivity. }
+      destruct (negb _); [reflexivity|]. destruct (negb _); [reflexivity|]. rewrite elem_r_ok. cbn [rbind rok].
+      destruct (enum_parse _); reflexivity. }
     destruct (bytes_eqb (base t) T_DateTime64); [|reflexivity].
     unfold datetime64_infer. rewrite elem_r_ok. cbn [rbind rok].
     destruct (elem t); [reflexivity|].
@@ -806,8 +806,8 @@ Section InferProofs.
     destruct (bytes_eqb (base t) T_Decimal256); [reflexivity|].
     destruct (bytes_eqb (base t) T_Enum8 || bytes_eqb (base t) T_Enum16).
     { unfold enum_infer. rewrite base_r_ok. cbn [rbind rok].
-      destruct (negb _); [reflexivity|]. rewrite elem_r_ok. cbn [rbind rok].
-      destruct (enum_parse _); [|reflexivity]. destruct (_ || _); reflexivity. }
+      destruct (negb _); [reflexivity|]. destruct (negb _); [reflexivity|]. rewrite elem_r_ok. cbn [rbind rok].
+      destruct (enum_parse _); reflexivity. }
     destruct (bytes_eqb (base t) T_DateTime64); [|reflexivity].
     unfold datetime64_infer. rewrite elem_r_ok. cbn [rbind rok].
     destruct (elem t); [reflexivity|].
@@ -1035,10 +1035,10 @@ Section TwoBlocks.
     destruct (bytes_eqb (base t) T_Enum8 || bytes_eqb (base t) T_Enum16) eqn:En.
     { unfold enum_infer. rewrite base_r_ok. cbn [rbind rok].
       destruct (negb (has_prefix (s2b "Enum") (base t))) eqn:Ep; [discriminate|].
-      rewrite elem_r_ok. cbn [rbind rok].
-      destruct (enum_parse _) as [ds|] eqn:Eds; [|discriminate]. rewrite En. intros [= <- <-].
+      rewrite En. cbn [negb]. rewrite elem_r_ok. cbn [rbind rok].
+      destruct (enum_parse _) as [ds|] eqn:Eds; [|discriminate]. intros [= <- <-].
       unfold again. cbn [inferable TypeStr.reinfer]. unfold enum_infer. rewrite base_r_ok. cbn [rbind rok].
-      rewrite Ep, elem_r_ok. cbn [rbind rok]. rewrite Eds, En. eexists. split; reflexivity. }
+      rewrite Ep, En. cbn [negb]. rewrite elem_r_ok. cbn [rbind rok]. rewrite Eds. eexists. split; reflexivity. }
     destruct (bytes_eqb (base t) T_DateTime64); [|discriminate].
     intros H. assert (Hc : exists p l, c = CDateTime64 p l /\ r = [] /\ datetime64_infer zone l t = rok c).
     { revert H. unfold datetime64_infer. rewrite elem_r_ok. cbn [rbind rok].
